@@ -22,6 +22,7 @@ LC_TEXTS = ["c", "a comment", "x; y", "{ brace", "} close", "say 'hi'", '"q"', "
             "back\\slash", "\\1", "\\g<0>", "a\\nb", "", " ", "100%", "#include 'x'", "tab\there", "*", "**/", "/*"]
 BC_TEXTS = [" c ", "a; b", " { } ", "*", " 'q' ", ' "d" ', " $x ", "\n multi\n line \n", " see http://x.y ", "", " back\\slash ", " \\1 ",
             " C++ ", "** stars **", " k v; ", " page 1 \x0c page 2 ", " a\x0bb ", " x\u2028y ", " u\x85v ", " don't ", ' 5" ']
+WS_TWINS = [(" - case", "   - case"), (" x = 1", " x  =  1"), (" units: m s ", " units:  m   s "), (" a\tb", " a b"), ("t  1", "t 1")]
 INCLUDES = ["inc1", "sub/inc2", "./inc1", "../up", "missing", "sub\\win", "with space", "d.ir/f.dict", "é/f"]
 
 
@@ -36,6 +37,14 @@ def gen_items(rng, depth, top=True, lstd=False):
     for _ in range(rng.randint(1, 5)):
         r = rng.random()
         if r < 0.3:
+            if rng.random() < 0.12:
+                # two different comments on one level whose texts differ only in the amount of white space inside them
+                a, b = rng.choice(WS_TWINS)
+                if rng.random() < 0.5:
+                    items.append({"i": "lineC", "text": "//" + a}); items.append({"i": "lineC", "text": "//" + b})
+                else:
+                    items.append({"i": "blockC", "text": "/*" + a + "*/"}); items.append({"i": "blockC", "text": "/*" + b + "*/"})
+                continue
             items.append(gen_comment(rng)); continue
         if top and r < 0.4:
             name = rng.choice(INCLUDES)
